@@ -16,13 +16,14 @@ import (
 // C15 — template cache and loaders always serve the source the configuration calls for.
 
 type c15Op struct {
-	K    string `json:"k"` // setcache setreload devmode register lset touch ldel clock load render fault racewrite
+	K    string `json:"k"` // setcache setreload devmode register lset touch ldel clock load render fault racewrite addloader chainadd
 	L    int    `json:"l,omitempty"`
 	Name string `json:"name,omitempty"`
 	B    bool   `json:"b,omitempty"`
 	D    int64  `json:"d,omitempty"`  // clock delta in seconds
 	F    string `json:"f,omitempty"`  // fault kind: load-eio | mtime-err
 	At   int    `json:"at,omitempty"` // racewrite: after how many further loader-level calls "another process" rewrites the template
+	Via  int    `json:"via,omitempty"` // register: 0 RegisterString, 1 ParseTemplate+RegisterTemplate, 2 RegisterCompiledTemplate, 3 LoadFromCompiledData; addloader: index into the loader kinds
 }
 
 type c15Sc struct {
@@ -40,7 +41,7 @@ func (propC15) ID() string    { return "C15" }
 func (propC15) Race() bool    { return false }
 func (propC15) Level() string { return "exploration" }
 func (propC15) Rule() string {
-	return "one run = a seeded history of up to 40 operations (SetCache, SetAutoReload, SetDevelopmentMode, RegisterString, loader content change / touch / delete, simulated-clock steps of 0 s, 1 s, backwards, one-shot loader faults EIO / mtime error, Load, Render) over 1-3 names and 1-3 loaders out of {timestamp-aware in-memory loader with read counters, ArrayLoader, ChainLoader, FileSystemLoader and CompiledLoader on the simulated disk}. Every version of every source carries a unique tag, so the version a call served is read off its result; an executable state machine written from the property text gives the admissible versions, the error class and whether the loaders must / must not have been read. distinct = distinct event-log hash; non-trivial = the history contains a reload decision (cached entry with auto-reload on) or a cache-mode change before a Load/Render"
+	return "one run = a seeded history of up to 40 operations (SetCache, SetAutoReload, SetDevelopmentMode, registration through RegisterString / ParseTemplate+RegisterTemplate / RegisterCompiledTemplate / LoadFromCompiledData with stored timestamps unrelated to the clock, RegisterLoader and ChainLoader.AddLoader in mid-history, loader content change / touch / delete, simulated-clock steps of 0 s, 1 s, backwards, one-shot loader faults EIO / mtime error, Load, Render) over 1-3 names and 1-3 loaders out of {timestamp-aware in-memory loader with read counters, ArrayLoader, ChainLoader, FileSystemLoader and CompiledLoader on the simulated disk}. Every version of every source carries a unique tag, so the version a call served is read off its result; an executable state machine written from the property text gives the admissible versions, the error class and whether the loaders must / must not have been read. distinct = distinct event-log hash; non-trivial = the history contains a reload decision (cached entry with auto-reload on) or a cache-mode change before a Load/Render"
 }
 func (propC15) Assumptions() []string {
 	return []string{
@@ -62,7 +63,7 @@ func (propC15) Decode(raw []byte) (interface{}, error) {
 func (propC15) Gen(seed uint64, ex map[string]bool) interface{} {
 	r := newR(seed)
 	sc := &c15Sc{WorldSeed: simrt.Mix(seed, 5)}
-	kinds := []string{"simts", "simts", "array", "fs", "compiled", "chain"}
+	kinds := c15Kinds
 	nl := r.Range(1, 3)
 	maxOps, maxNames := 40, 3
 	if ex["tier:thorough"] {
@@ -75,9 +76,19 @@ func (propC15) Gen(seed uint64, ex map[string]bool) interface{} {
 	sc.Names = []string{"a", "b", "c", "d"}[:r.Range(1, maxNames)]
 	n := r.Range(6, maxOps)
 	cacheOn := true
+	grow := nl > 1 && r.P(40) // histories in which the loader list itself changes (never together with a racing writer)
 	for i := 0; i < n; i++ {
 		name := pick(r, sc.Names)
 		l := r.N(nl)
+		if grow && r.P(6) {
+			if r.P(50) && nl < 5 {
+				sc.Ops = append(sc.Ops, c15Op{K: "addloader", Via: r.N(len(c15Kinds))})
+				nl++
+			} else {
+				sc.Ops = append(sc.Ops, c15Op{K: "chainadd", L: l})
+			}
+			continue
+		}
 		switch c := r.N(34); {
 		case c < 2:
 			b := r.P(60)
@@ -91,7 +102,7 @@ func (propC15) Gen(seed uint64, ex map[string]bool) interface{} {
 			cacheOn = !b
 		case c < 9:
 			if cacheOn {
-				sc.Ops = append(sc.Ops, c15Op{K: "register", Name: name})
+				sc.Ops = append(sc.Ops, c15Op{K: "register", Name: name, Via: pick(r, []int{0, 0, 1, 2, 3})})
 			}
 		case c < 15:
 			sc.Ops = append(sc.Ops, c15Op{K: "lset", L: l, Name: name})
@@ -120,6 +131,8 @@ func (propC15) Gen(seed uint64, ex map[string]bool) interface{} {
 	return sc
 }
 
+var c15Kinds = []string{"simts", "simts", "array", "fs", "compiled", "chain"}
+
 // ---- loaders: model + real counterpart ----
 
 type c15File struct {
@@ -131,10 +144,10 @@ type c15Loader struct {
 	kind   string
 	ts     bool
 	files  map[string]c15File // model content (for chain: of the first inner)
-	files2 map[string]c15File // chain: second inner
+	inner  []map[string]c15File // chain: model content of the second, third, … inner loader
 	real   twig.Loader
 	arr    *twig.ArrayLoader
-	arr2   *twig.ArrayLoader
+	arrs   []*twig.ArrayLoader // chain: second, third, … inner loader
 	sim    *tsLoader
 	dir    string
 	fault  string
@@ -277,9 +290,12 @@ func (propC15) Run(scI interface{}) *Outcome {
 	}
 	nowS := func() int64 { return w.NowNS() / 1e9 }
 	var loaders []*c15Loader
-	fsLoaders = make([]*c15Loader, len(sc.Loaders))
-	for i, k := range sc.Loaders {
+	fsLoaders = make([]*c15Loader, len(sc.Loaders), len(sc.Loaders)+8)
+	mkLoader := func(i int, k string) *c15Loader {
 		l := &c15Loader{kind: k, files: map[string]c15File{}}
+		for len(fsLoaders) <= i {
+			fsLoaders = append(fsLoaders, nil)
+		}
 		switch k {
 		case "simts":
 			l.ts = true
@@ -293,9 +309,9 @@ func (propC15) Run(scI interface{}) *Outcome {
 			l.real = l.arr
 		case "chain":
 			l.arr = twig.NewArrayLoader(map[string]string{})
-			l.arr2 = twig.NewArrayLoader(map[string]string{})
-			l.files2 = map[string]c15File{}
-			l.real = twig.NewChainLoader([]twig.Loader{l.arr, l.arr2})
+			l.arrs = []*twig.ArrayLoader{twig.NewArrayLoader(map[string]string{})}
+			l.inner = []map[string]c15File{{}}
+			l.real = twig.NewChainLoader([]twig.Loader{l.arr, l.arrs[0]})
 		case "fs":
 			l.ts = true
 			l.dir = fmt.Sprintf("tpl%d", i)
@@ -313,6 +329,10 @@ func (propC15) Run(scI interface{}) *Outcome {
 		}
 		e.RegisterLoader(l.real)
 		loaders = append(loaders, l)
+		return l
+	}
+	for i, k := range sc.Loaders {
+		mkLoader(i, k)
 	}
 	setFile := func(l *c15Loader, name string, ver int, second bool) {
 		src := c15Src(name, ver)
@@ -325,8 +345,9 @@ func (propC15) Run(scI interface{}) *Outcome {
 			l.arr.SetTemplate(name, src)
 		case "chain":
 			if second {
-				l.arr2.SetTemplate(name, src)
-				l.files2[name] = f
+				j := (ver / 3) % len(l.arrs)
+				l.arrs[j].SetTemplate(name, src)
+				l.inner[j][name] = f
 				return
 			}
 			l.arr.SetTemplate(name, src)
@@ -345,9 +366,10 @@ func (propC15) Run(scI interface{}) *Outcome {
 		if f, ok := l.files[name]; ok {
 			return f, true
 		}
-		if l.kind == "chain" {
-			f, ok := l.files2[name]
-			return f, ok
+		for _, m := range l.inner {
+			if f, ok := m[name]; ok {
+				return f, true
+			}
 		}
 		return c15File{}, false
 	}
@@ -363,7 +385,11 @@ func (propC15) Run(scI interface{}) *Outcome {
 		return o
 	}
 	describe := func() string {
-		return fmt.Sprintf("cacheOn=%v autoReload=%v cache=%v loaders=%v", cacheOn, autoReload, cache, sc.Loaders)
+		kinds := []string{}
+		for _, l := range loaders {
+			kinds = append(kinds, l.kind)
+		}
+		return fmt.Sprintf("cacheOn=%v autoReload=%v cache=%v loaders=%v", cacheOn, autoReload, cache, kinds)
 	}
 	configChanged := false
 	maxNow := w.NowNS()
@@ -389,11 +415,25 @@ func (propC15) Run(scI interface{}) *Outcome {
 			autoReload = op.B
 			cacheOn = !op.B
 			configChanged = true
+		case "addloader":
+			if len(loaders) < 6 {
+				mkLoader(len(loaders), c15Kinds[op.Via%len(c15Kinds)])
+				o.Probes["loaders_added"]++
+			}
+		case "chainadd":
+			if l := loaders[op.L]; l.kind == "chain" && len(l.arrs) < 4 {
+				a := twig.NewArrayLoader(map[string]string{})
+				l.real.(*twig.ChainLoader).AddLoader(a)
+				l.arrs = append(l.arrs, a)
+				l.inner = append(l.inner, map[string]c15File{})
+				o.Probes["chain_loaders_added"]++
+			}
 		case "register":
 			nextVer++
-			if err := e.RegisterString(op.Name, c15Src(op.Name, nextVer)); err != nil {
-				return fail("RegisterString failed", err.Error())
+			if err := c15Register(e, op.Via, op.Name, c15Src(op.Name, nextVer), nowS(), nextVer); err != nil {
+				return fail("registration failed", fmt.Sprintf("via %d: %v", op.Via, err))
 			}
+			o.Probes[fmt.Sprintf("register_via_%d", op.Via)]++
 			if cacheOn {
 				cache[op.Name] = c15Cache{ver: nextVer, origin: -1}
 			}
@@ -715,11 +755,11 @@ func (propC15) Run(scI interface{}) *Outcome {
 			if len(admissible) == 1 && !faultArmed {
 				if mustNotRead >= 0 && loaders[mustNotRead].reads != nil && loaders[mustNotRead].reads(op.Name) != readsBefore[mustNotRead] {
 					return fail("unchanged cached template was re-read from its loader ("+fmt.Sprintf("autoreload=%v", autoReload)+")",
-						fmt.Sprintf("op #%d %s %s: loader %d (%s) read count %d -> %d\n %s", oi, op.K, op.Name, mustNotRead, sc.Loaders[mustNotRead], readsBefore[mustNotRead], loaders[mustNotRead].reads(op.Name), describe()))
+						fmt.Sprintf("op #%d %s %s: loader %d (%s) read count %d -> %d\n %s", oi, op.K, op.Name, mustNotRead, loaders[mustNotRead].kind, readsBefore[mustNotRead], loaders[mustNotRead].reads(op.Name), describe()))
 				}
 				if mustRead >= 0 && loaders[mustRead].reads != nil && loaders[mustRead].reads(op.Name) == readsBefore[mustRead] {
 					return fail("loaders were not re-read although the configuration calls for it ("+fmt.Sprintf("cache=%v", cacheOn)+")",
-						fmt.Sprintf("op #%d %s %s: loader %d (%s) read count stayed %d\n %s", oi, op.K, op.Name, mustRead, sc.Loaders[mustRead], readsBefore[mustRead], describe()))
+						fmt.Sprintf("op #%d %s %s: loader %d (%s) read count stayed %d\n %s", oi, op.K, op.Name, mustRead, loaders[mustRead].kind, readsBefore[mustRead], describe()))
 				}
 			}
 			// commit the model's cache update; in don't-care cases follow what the engine did
@@ -747,6 +787,31 @@ func (propC15) Run(scI interface{}) *Outcome {
 	}
 	o.Sample = map[string]interface{}{"loaders": sc.Loaders, "names": sc.Names, "ops": opsText(sc.Ops)}
 	return o
+}
+
+// c15Register registers a source under a name through one of the engine's registration entry points.
+// Compiled forms carry timestamps that are deliberately unrelated to the clock (zero, far past, far
+// future): a registered template has no loader, so no timestamp may make the engine look elsewhere.
+func c15Register(e *twig.Engine, via int, name, src string, now int64, ver int) error {
+	lm := []int64{0, 1, now - 86400, now, now + 86400, 1 << 40}[ver%6]
+	switch via {
+	case 1:
+		t, err := e.ParseTemplate(src)
+		if err != nil {
+			return err
+		}
+		e.RegisterTemplate(name, t)
+		return nil
+	case 2:
+		return e.RegisterCompiledTemplate(&twig.CompiledTemplate{Name: name, Source: src, LastModified: lm, CompileTime: now})
+	case 3:
+		data, err := twig.SerializeCompiledTemplate(&twig.CompiledTemplate{Name: name, Source: src, LastModified: lm, CompileTime: now})
+		if err != nil {
+			return err
+		}
+		return e.LoadFromCompiledData(data)
+	}
+	return e.RegisterString(name, src)
 }
 
 // fsName maps a path on the simulated disk back to the template name of an fs / compiled loader.
@@ -802,6 +867,12 @@ func opsText(ops []c15Op) string {
 			s += fmt.Sprintf("clock%+ds ", op.D)
 		case "lset", "touch", "ldel":
 			s += fmt.Sprintf("%s(L%d,%s) ", op.K, op.L, op.Name)
+		case "addloader":
+			s += fmt.Sprintf("addloader(%s) ", c15Kinds[op.Via%len(c15Kinds)])
+		case "chainadd":
+			s += fmt.Sprintf("chainadd(L%d) ", op.L)
+		case "register":
+			s += fmt.Sprintf("register(%s,via%d) ", op.Name, op.Via)
 		case "fault":
 			s += fmt.Sprintf("fault(L%d,%s) ", op.L, op.F)
 		default:
